@@ -88,29 +88,127 @@ def Store.flush (s : Store) : Store :=
 /-- reopen: novel tables become upstream (manifest), nothing else changes -/
 def Store.reopen (s : Store) : Store := { mem := [], novel := [], upstream := (s.flush).novel ++ s.upstream }
 
+/-- conjoin: the selected upstream tables are replaced by **one** table serving the concatenation of
+their chunks (duplicates kept, `planTableConjoin`); it is listed first among the upstream tables, the
+unselected ones keep their order (`conjoinOperation.updateManifest`) -/
+def Store.conjoin (s : Store) (sel : Source → Bool) : Store :=
+  { s with upstream := (s.upstream.filter sel).flatten :: s.upstream.filter (fun t => !sel t) }
+
+/-- everything the store holds anywhere, in read order -/
+def Store.entries (s : Store) : List (Addr × Bytes) := (s.mem :: (s.novel ++ s.upstream)).flatten
+
+/-- garbage collection with keep-set `keep` (the marked addresses): memtable flushed, every table
+replaced by one table serving exactly the kept chunks (`markAndSweepChunks` + `swapTables`) -/
+def Store.gc (s : Store) (keep : Addr → Bool) : Store :=
+  { mem := [], novel := [], upstream := [s.entries.filter (fun e => keep e.1)] }
+
 inductive Op where
   | put (a : Addr) (d : Bytes)
   | commit
   | reopen
+  | conjoin (sel : Source → Bool)
+  | gc (keep : Addr → Bool)
 
 def Store.apply (s : Store) : Op → Store
   | .put a d => s.put a d
   | .commit => s.flush
   | .reopen => s.reopen
+  | .conjoin sel => s.conjoin sel
+  | .gc keep => s.gc keep
 
 def run (ops : List Op) : Store := ops.foldl Store.apply ⟨[], [], []⟩
 
-/-- every (address, bytes) pair a history wrote -/
+/-- every (address, bytes) pair a history wrote (collected or not) -/
 def written : List Op → List (Addr × Bytes)
   | [] => []
   | .put a d :: rest => (a, d) :: written rest
   | _ :: rest => written rest
 
-/-- everything the store holds anywhere, in read order -/
-def Store.entries (s : Store) : List (Addr × Bytes) := s.chain.flatten
+/-- the specification state: the pairs written **and not collected since** -/
+def liveStep (l : List (Addr × Bytes)) : Op → List (Addr × Bytes)
+  | .put a d => (a, d) :: l
+  | .gc keep => l.filter (fun e => keep e.1)
+  | _ => l
+
+def live (ops : List Op) : List (Addr × Bytes) := ops.foldl liveStep []
 
 /-- the abstract map: first binding in read order -/
 def Store.abs (s : Store) (a : Addr) : Option Bytes := s.entries.lookup a
+
+/-! ### journal store: the journal chunk source with its range index inside the store -/
+
+/-- the journal chunk source (`journalChunkSource` over `rangeIndex`, ranges replaced by the bytes they
+address): `novel` is keyed by the full address, `cached` by its first 16 bytes -/
+structure JSrc where
+  novel : List (Addr × Bytes)
+  cached : List ((Nat × Nat) × Bytes)
+deriving Repr
+
+/-- `rangeIndex.get` + read: novel by full address, else cached by `addr16` -/
+def JSrc.get (j : JSrc) (a : Addr) : Option Bytes :=
+  match j.novel.lookup a with
+  | some d => some d
+  | none => j.cached.lookup a.a16
+
+def JSrc.has (j : JSrc) (a : Addr) : Bool := (j.get a).isSome
+
+/-- `rangeIndex.flatten` (at a commit with more than `maxNovel` novel chunks, and when the index is
+bootstrapped from the journal index file) -/
+def JSrc.flatten (j : JSrc) : JSrc :=
+  { novel := [], cached := j.novel.map (fun e => (e.1.a16, e.2)) ++ j.cached }
+
+/-- `journalChunkSource.iterateAllChunks`: novel chunks under their addresses, cached chunks under
+the 16 known address bytes followed by four zero bytes -/
+def JSrc.iterate (j : JSrc) : List (Addr × Bytes) :=
+  j.novel ++ j.cached.map (fun e => (⟨e.1.1, e.1.2 * 4294967296⟩, e.2))
+
+/-- a journaling `NomsBlockStore`: memtable, the journal source, table files -/
+structure JStore where
+  mem : Source
+  j : JSrc
+  tables : List Source
+deriving Repr
+
+def JStore.get (s : JStore) (a : Addr) : Option Bytes :=
+  match s.mem.get a with
+  | some d => some d
+  | none => match s.j.get a with
+    | some d => some d
+    | none => chainGet s.tables a
+
+def JStore.has (s : JStore) (a : Addr) : Bool := s.mem.has a || s.j.has a || chainHas s.tables a
+
+/-- `HasMany` through the chain with carried flags: memtable, journal (`hasAddr` per record), tables -/
+def JStore.hasMany (s : JStore) (as : List Addr) : List Addr :=
+  ((chainHasMany s.tables
+      ((srcHasMany s.mem (as.map (fun a => (a, false)))).map (fun r => (r.1, r.2 || s.j.has r.1)))).filter
+    (fun r => !r.2)).map (·.1)
+
+def JStore.put (s : JStore) (a : Addr) (d : Bytes) : JStore :=
+  if s.mem.has a then s else { s with mem := s.mem ++ [(a, d)] }
+
+/-- commit: the memtable is persisted into the journal (`ChunkJournal.Persist`), minus what journal or
+tables already have -/
+def JStore.flush (s : JStore) : JStore :=
+  { s with mem := [],
+           j := { s.j with novel := (s.mem.filter (fun e => !(s.j.has e.1 || chainHas s.tables e.1))).reverse ++ s.j.novel } }
+
+inductive JOp where
+  | put (a : Addr) (d : Bytes)
+  | commit
+  | flatten
+
+def JStore.apply (s : JStore) : JOp → JStore
+  | .put a d => s.put a d
+  | .commit => s.flush
+  | .flatten => { s with j := s.j.flatten }
+
+def jrun (ops : List JOp) : JStore := ops.foldl JStore.apply ⟨[], ⟨[], []⟩, []⟩
+
+def jwritten : List JOp → List (Addr × Bytes)
+  | [] => []
+  | .put a d :: rest => (a, d) :: jwritten rest
+  | _ :: rest => jwritten rest
 
 /-! ### generational store -/
 
